@@ -45,3 +45,10 @@ func (u *UseCase) VerifPop(txId, key string, back bool) (model.File, bool) {
 
 	return v, true
 }
+
+// VerifHasStore reports whether a version store is registered under txId (without creating one).
+func (u *UseCase) VerifHasStore(txId string) bool {
+	_, ok := u.txStore.Get(txId)
+
+	return ok
+}
